@@ -413,6 +413,7 @@ func c15Rounds(r *ev.Run) {
 			var err error
 			pnc := c02Recover(func() { _, off, err = client.MeasureClockOffsetSCION(ctx, log, clients, la(), ra(), ps) })
 			cancel()
+			scionQuiesce()
 			r.Eval(1)
 			nw.mu.Lock()
 			obs := append([]c15Obs{}, nw.obs...)
